@@ -28,11 +28,11 @@ VARIABLES cap,
           arrived, arrDone, disab, cur, closedAt, ovfSeen, maxBacklog,  \* C03 per session
           pendRecv, pendFlush,                                  \* calls in flight: sets of <<t, s>>
           handed, conn, engConn, onBehalf, willOk,              \* C04
-          obsOf, obsIdx, obsSt, nObs, dataTag, dataPre,         \* C02 registration state
+          obsOf, obsIdx, obsRetAt, obsSt, nObs, dataTag, dataPend, dataPre, \* C02 registration state
           stage, seen, mustObs, annAtClose,                     \* C02 per-session close progress
           lifeCalled
 vars == <<l, cap, arrived, arrDone, disab, cur, closedAt, ovfSeen, maxBacklog, pendRecv, pendFlush, handed, conn, engConn, onBehalf,
-          willOk, obsOf, obsIdx, obsSt, nObs, dataTag, dataPre, stage, seen, mustObs, annAtClose, lifeCalled>>
+          willOk, obsOf, obsIdx, obsRetAt, obsSt, nObs, dataTag, dataPend, dataPre, stage, seen, mustObs, annAtClose, lifeCalled>>
 
 FS(v) == [s \in Sess |-> v]
 NoConn == [st |-> "idle", to |-> 0, vt |-> 0, sid |-> -1]
@@ -40,16 +40,16 @@ Canon(c) == /\ cap' = c
             /\ arrived' = FS(0) /\ arrDone' = FS(0) /\ disab' = FS({}) /\ cur' = FS(0) /\ closedAt' = FS(-1) /\ ovfSeen' = FS(FALSE) /\ maxBacklog' = FS(0)
             /\ pendRecv' = {} /\ pendFlush' = {}
             /\ handed' = {} /\ conn' = [t \in Thr |-> NoConn] /\ engConn' = {} /\ onBehalf' = {} /\ willOk' = {}
-            /\ obsOf' = [g \in Tags |-> -1] /\ obsIdx' = [g \in Tags |-> 0] /\ obsSt' = [g \in Tags |-> "none"] /\ nObs' = 0
-            /\ dataTag' = FS("-") /\ dataPre' = FS(FALSE)
+            /\ obsOf' = [g \in Tags |-> -1] /\ obsIdx' = [g \in Tags |-> 0] /\ obsRetAt' = [g \in Tags |-> 0] /\ obsSt' = [g \in Tags |-> "none"] /\ nObs' = 0
+            /\ dataTag' = FS("-") /\ dataPend' = FS({}) /\ dataPre' = FS(FALSE)
             /\ stage' = FS("none") /\ seen' = FS(<<>>) /\ mustObs' = FS({}) /\ annAtClose' = FS(FALSE)
             /\ lifeCalled' = FALSE
 Init == /\ l = 1 /\ cap = 0
         /\ arrived = FS(0) /\ arrDone = FS(0) /\ disab = FS({}) /\ cur = FS(0) /\ closedAt = FS(-1) /\ ovfSeen = FS(FALSE) /\ maxBacklog = FS(0)
         /\ pendRecv = {} /\ pendFlush = {}
         /\ handed = {} /\ conn = [t \in Thr |-> NoConn] /\ engConn = {} /\ onBehalf = {} /\ willOk = {}
-        /\ obsOf = [g \in Tags |-> -1] /\ obsIdx = [g \in Tags |-> 0] /\ obsSt = [g \in Tags |-> "none"] /\ nObs = 0
-        /\ dataTag = FS("-") /\ dataPre = FS(FALSE)
+        /\ obsOf = [g \in Tags |-> -1] /\ obsIdx = [g \in Tags |-> 0] /\ obsRetAt = [g \in Tags |-> 0] /\ obsSt = [g \in Tags |-> "none"] /\ nObs = 0
+        /\ dataTag = FS("-") /\ dataPend = FS({}) /\ dataPre = FS(FALSE)
         /\ stage = FS("none") /\ seen = FS(<<>>) /\ mustObs = FS({}) /\ annAtClose = FS(FALSE)
         /\ lifeCalled = FALSE
 EvReset == IsEv("Reset") /\ Canon(0)
@@ -57,7 +57,7 @@ EvBegin == IsEv("Begin") /\ Canon(Ev.cap)
 
 C03U == UNCHANGED <<arrived, arrDone, disab, cur, closedAt, ovfSeen, maxBacklog, pendRecv, pendFlush>>
 C04U == UNCHANGED <<handed, conn, engConn, onBehalf, willOk>>
-C02U == UNCHANGED <<obsOf, obsIdx, obsSt, nObs, dataTag, dataPre, stage, seen, mustObs, annAtClose>>
+C02U == UNCHANGED <<obsOf, obsIdx, obsRetAt, obsSt, nObs, dataTag, dataPend, dataPre, stage, seen, mustObs, annAtClose>>
 Keep == UNCHANGED <<cap, lifeCalled>>
 
 \* ---- C03 --------------------------------------------------------------------------------------------
@@ -166,16 +166,25 @@ EvGlobalAccept == /\ IsEv("GlobalAccept") /\ ~Ev.as /\ handed' = handed \cup {Ev
                   /\ UNCHANGED <<conn, engConn, onBehalf, willOk>> /\ C03U /\ C02U /\ Keep
 
 \* ---- C02 close fan-out --------------------------------------------------------------------------------
-EvObserveRet == /\ IsEv("ObserveRet") /\ obsSt[Ev.tag] = "none"
-                /\ obsOf' = [obsOf EXCEPT ![Ev.tag] = Ev.s] /\ obsIdx' = [obsIdx EXCEPT ![Ev.tag] = nObs + 1]
-                /\ obsSt' = [obsSt EXCEPT ![Ev.tag] = "reg"] /\ nObs' = nObs + 1
-                /\ UNCHANGED <<dataTag, dataPre, stage, seen, mustObs, annAtClose>> /\ C03U /\ C04U /\ Keep
+\* registration takes effect somewhere between ObserveCall and ObserveRet: obsIdx = position of the call in the log,
+\* obsRetAt = position of the return (0 while in flight)
+EvObserveCall == /\ IsEv("ObserveCall") /\ obsSt[Ev.tag] = "none"
+                 /\ obsOf' = [obsOf EXCEPT ![Ev.tag] = Ev.s] /\ obsIdx' = [obsIdx EXCEPT ![Ev.tag] = l]
+                 /\ obsSt' = [obsSt EXCEPT ![Ev.tag] = "calling"] /\ nObs' = nObs + 1
+                 /\ UNCHANGED <<obsRetAt, dataTag, dataPend, dataPre, stage, seen, mustObs, annAtClose>> /\ C03U /\ C04U /\ Keep
+EvObserveRet == /\ IsEv("ObserveRet") /\ obsSt[Ev.tag] = "calling"
+                /\ obsSt' = [obsSt EXCEPT ![Ev.tag] = "reg"] /\ obsRetAt' = [obsRetAt EXCEPT ![Ev.tag] = l]
+                /\ UNCHANGED <<obsOf, obsIdx, nObs, dataTag, dataPend, dataPre, stage, seen, mustObs, annAtClose>> /\ C03U /\ C04U /\ Keep
 EvUnobserveCall == /\ IsEv("UnobserveCall") /\ obsSt' = [obsSt EXCEPT ![Ev.tag] = IF @ = "reg" THEN "going" ELSE @]
-                   /\ UNCHANGED <<obsOf, obsIdx, nObs, dataTag, dataPre, stage, seen, mustObs, annAtClose>> /\ C03U /\ C04U /\ Keep
-EvUnobserveRet == /\ IsEv("UnobserveRet") /\ obsSt' = [obsSt EXCEPT ![Ev.tag] = IF @ = "going" THEN "gone" ELSE @]
-                  /\ UNCHANGED <<obsOf, obsIdx, nObs, dataTag, dataPre, stage, seen, mustObs, annAtClose>> /\ C03U /\ C04U /\ Keep
+                   /\ UNCHANGED <<obsOf, obsIdx, obsRetAt, nObs, dataTag, dataPend, dataPre, stage, seen, mustObs, annAtClose>> /\ C03U /\ C04U /\ Keep
+\* an unobserve that returns FALSE removed nothing (the close had already taken the observer list): still registered
+EvUnobserveRet == /\ IsEv("UnobserveRet") /\ obsSt' = [obsSt EXCEPT ![Ev.tag] = IF @ = "going" THEN (IF Ev.ok THEN "gone" ELSE "reg") ELSE @]
+                  /\ UNCHANGED <<obsOf, obsIdx, obsRetAt, nObs, dataTag, dataPend, dataPre, stage, seen, mustObs, annAtClose>> /\ C03U /\ C04U /\ Keep
+EvSetDataCall == /\ IsEv("SetDataCall") /\ dataPend' = [dataPend EXCEPT ![Ev.s] = @ \cup {Ev.tag}]
+                 /\ UNCHANGED <<obsOf, obsIdx, obsRetAt, obsSt, nObs, dataTag, dataPre, stage, seen, mustObs, annAtClose>> /\ C03U /\ C04U /\ Keep
 EvSetDataRet == /\ IsEv("SetDataRet") /\ dataTag' = [dataTag EXCEPT ![Ev.s] = Ev.tag]
-                /\ UNCHANGED <<obsOf, obsIdx, obsSt, nObs, dataPre, stage, seen, mustObs, annAtClose>> /\ C03U /\ C04U /\ Keep
+                /\ dataPend' = [dataPend EXCEPT ![Ev.s] = @ \ {Ev.tag}]
+                /\ UNCHANGED <<obsOf, obsIdx, obsRetAt, obsSt, nObs, dataPre, stage, seen, mustObs, annAtClose>> /\ C03U /\ C04U /\ Keep
 
 EvCloseCall == /\ IsEv("CloseCall") /\ stage[Ev.s] = "none"                     \* exactly one close per session
                /\ stage' = [stage EXCEPT ![Ev.s] = "start"]
@@ -184,34 +193,36 @@ EvCloseCall == /\ IsEv("CloseCall") /\ stage[Ev.s] = "none"                     
                /\ dataPre' = [dataPre EXCEPT ![Ev.s] = dataTag[Ev.s] # "-"]
                /\ annAtClose' = [annAtClose EXCEPT ![Ev.s] = Ev.s \in handed]
                /\ UNCHANGED <<arrived, arrDone, disab, cur, ovfSeen, maxBacklog, pendRecv, pendFlush>>
-               /\ UNCHANGED <<obsOf, obsIdx, obsSt, nObs, dataTag, seen>> /\ C04U /\ Keep
+               /\ UNCHANGED <<obsOf, obsIdx, obsRetAt, obsSt, nObs, dataTag, dataPend, seen>> /\ C04U /\ Keep
 EvGlobalClose == /\ IsEv("GlobalClose") /\ stage[Ev.s] = "start" /\ ~Ev.as
                  /\ Owned(Ev.s)                                                    \* never for a session nobody was given
                  /\ stage' = [stage EXCEPT ![Ev.s] = "global"]
                  /\ willOk' = IF Ev.s \in handed THEN willOk ELSE willOk \cup {Ev.s}
                  /\ UNCHANGED <<handed, conn, engConn, onBehalf>>
-                 /\ UNCHANGED <<obsOf, obsIdx, obsSt, nObs, dataTag, dataPre, seen, mustObs, annAtClose>> /\ C03U /\ Keep
-LastIdx(s) == IF seen[s] = <<>> THEN 0 ELSE obsIdx[seen[s][Len(seen[s])]]
+                 /\ UNCHANGED <<obsOf, obsIdx, obsRetAt, obsSt, nObs, dataTag, dataPend, dataPre, seen, mustObs, annAtClose>> /\ C03U /\ Keep
+\* registration order: an observer whose registration had COMPLETED before another one's registration BEGAN must not be
+\* called after it; at most once each; an observer still being registered (or removed) may or may not be called
 EvObs == /\ IsEv("Obs") /\ stage[Ev.s] \in {"global", "obs"} /\ ~Ev.as
-         /\ obsOf[Ev.tag] = Ev.s /\ obsSt[Ev.tag] \in {"reg", "going"}            \* a removed observer is not called
-         /\ obsIdx[Ev.tag] > LastIdx(Ev.s)                                        \* registration order, at most once
+         /\ obsOf[Ev.tag] = Ev.s /\ obsSt[Ev.tag] \in {"calling", "reg", "going"}     \* a removed observer is not called
+         /\ \A i \in 1..Len(seen[Ev.s]) : seen[Ev.s][i] # Ev.tag                      \* at most once
+         /\ \A i \in 1..Len(seen[Ev.s]) : ~(obsRetAt[Ev.tag] # 0 /\ obsRetAt[Ev.tag] < obsIdx[seen[Ev.s][i]])
          /\ seen' = [seen EXCEPT ![Ev.s] = Append(@, Ev.tag)]
          /\ stage' = [stage EXCEPT ![Ev.s] = "obs"]
-         /\ UNCHANGED <<obsOf, obsIdx, obsSt, nObs, dataTag, dataPre, mustObs, annAtClose>> /\ C03U /\ C04U /\ Keep
+         /\ UNCHANGED <<obsOf, obsIdx, obsRetAt, obsSt, nObs, dataTag, dataPend, dataPre, mustObs, annAtClose>> /\ C03U /\ C04U /\ Keep
 SeenSet(s) == {seen[s][i] : i \in 1..Len(seen[s])}
 \* registered before the close began and neither removed nor being removed since: these MUST be called
 StillReg(s) == {g \in mustObs[s] : obsSt[g] = "reg"}
 EvCleanup == /\ IsEv("Cleanup") /\ stage[Ev.s] \in {"global", "obs"} /\ ~Ev.as
              /\ StillReg(Ev.s) \subseteq SeenSet(Ev.s)                             \* cleanup is last
-             /\ Ev.tag = dataTag[Ev.s]
+             /\ (Ev.tag = dataTag[Ev.s] \/ Ev.tag \in dataPend[Ev.s])
              /\ stage' = [stage EXCEPT ![Ev.s] = "cleanup"]
-             /\ UNCHANGED <<obsOf, obsIdx, obsSt, nObs, dataTag, dataPre, seen, mustObs, annAtClose>> /\ C03U /\ C04U /\ Keep
+             /\ UNCHANGED <<obsOf, obsIdx, obsRetAt, obsSt, nObs, dataTag, dataPend, dataPre, seen, mustObs, annAtClose>> /\ C03U /\ C04U /\ Keep
 EvCloseRet == /\ IsEv("CloseRet") /\ stage[Ev.s] \in {"start", "global", "obs", "cleanup"}
               /\ annAtClose[Ev.s] => stage[Ev.s] # "start"                        \* an announced session gets its close
               /\ (stage[Ev.s] # "start") => StillReg(Ev.s) \subseteq SeenSet(Ev.s) \* every still-registered observer ran
               /\ (stage[Ev.s] # "start" /\ dataPre[Ev.s]) => stage[Ev.s] = "cleanup"
               /\ stage' = [stage EXCEPT ![Ev.s] = "done"]
-              /\ UNCHANGED <<obsOf, obsIdx, obsSt, nObs, dataTag, dataPre, seen, mustObs, annAtClose>> /\ C03U /\ C04U /\ Keep
+              /\ UNCHANGED <<obsOf, obsIdx, obsRetAt, obsSt, nObs, dataTag, dataPend, dataPre, seen, mustObs, annAtClose>> /\ C03U /\ C04U /\ Keep
 
 \* ---- C05 --------------------------------------------------------------------------------------------
 EvLifeCall == /\ IsEv("LifeCall") /\ lifeCalled' = TRUE /\ UNCHANGED cap /\ C03U /\ C04U /\ C02U
@@ -222,7 +233,7 @@ EvEnd == /\ IsEv("End") /\ Ev.outcome # "stuck"                                 
          /\ (Ev.outcome = "done") => (pendRecv = {} /\ \A t \in Thr : conn[t].st = "idle")
          /\ C03U /\ C04U /\ C02U /\ Keep
 
-Next == EvReset \/ EvBegin \/ EvArriveCall \/ EvArriveRet \/ EvData \/ EvRecvCall \/ EvRecvRet \/ EvModeCall \/ EvModeRet
+Next == EvReset \/ EvBegin \/ EvObserveCall \/ EvSetDataCall \/ EvArriveCall \/ EvArriveRet \/ EvData \/ EvRecvCall \/ EvRecvRet \/ EvModeCall \/ EvModeRet
         \/ EvExpectAll \/ EvConnCall \/ EvEngConnReq \/ EvAsyncConnRet \/ EvEngConnected \/ EvEngConnFail \/ EvEngClose
         \/ EvConnRet \/ EvGlobalConnect \/ EvAcceptCall \/ EvGlobalAccept \/ EvObserveRet \/ EvUnobserveCall \/ EvUnobserveRet
         \/ EvSetDataRet \/ EvCloseCall \/ EvGlobalClose \/ EvObs \/ EvCleanup \/ EvCloseRet \/ EvLifeCall \/ EvLifeRet
